@@ -213,6 +213,10 @@ class Euclid(Stream):
                                 m = Metric.Euclidian(p_, sig, tat, nb_bars=bars)
                                 if [int(x) for x in m.array] != direct:
                                     return {"direct": direct, "metric": [int(x) for x in m.array], "bars": bars, "sig": list(sig), "tatum": str(tat)}
+                                # and through the instance method of an existing metric of the same shape
+                                m2 = Metric.Full(sig, tat, nb_bars=bars).euclidian(p_)
+                                if [int(x) for x in m2.array] != direct:
+                                    return {"direct": direct, "metric": [int(x) for x in m2.array], "bars": bars, "sig": list(sig), "tatum": str(tat)}
             return direct
         return mlang.guarded(f)
 
@@ -324,5 +328,78 @@ class ApplyNoExpand(Stream):
         return sum(case["array"]) >= 2
 
 
+
+class ScoreRhythmStream(Stream):
+    """ScoreRhythm: one metric per part, applied chord after chord over a whole score (each chord takes the window of its part's
+    grid that lies under it, the grid repeating cyclically): every pulse of the repeated grid carries a note, nothing else does,
+    and every part still lasts its chord"""
+    name = "score_rhythm"
+    checker = None
+    pair = "property oracle on ScoreRhythm({part: Metric})(score): global note onsets of each part = the pulse positions of its cyclically repeated grid"
+    quick, thorough = 300, 4000
+
+    def gen(self, rng, n):
+        for _ in range(n):
+            tat = rng.choice([F(1), F(1, 2), F(1, 4)])
+            grids = {}
+            for nm in rng.sample(["piano__0", "violin__0", "flute__0"], rng.randrange(1, 4)):
+                for _t in range(50):
+                    sig, t2, bars, arr = rand_grid(rng)
+                    if t2 == tat and sum(arr) >= 1:
+                        grids[nm] = {"sig": list(sig), "bars": bars, "array": arr}
+                        break
+            if not grids:
+                continue
+            chords = [{"elem": rng.randrange(7), "dur": tat * rng.randrange(1, 13)} for _c in range(rng.randrange(1, 6))]
+            yield {"tatum": tat, "grids": grids, "chords": chords, "mel": rng.randrange(1, 6)}
+
+    def impl(self, case):
+        from musiclang import Metric, Melody, Note, Score, Chord, Tonality
+        from musiclang.write.rhythm.score_rythm import ScoreRhythm
+        def f():
+            tat = F(case["tatum"])
+            metrics = {nm: Metric(list(g["array"]), tuple(g["sig"]), tatum=tat, nb_bars=g["bars"]) for nm, g in case["grids"].items()}
+            mel = Melody([Note("s", i % 7, i // 7, 1) for i in range(case["mel"])])
+            chords = []
+            for c in case["chords"]:
+                ch = Chord(c["elem"], tonality=Tonality(0))(**{nm: mel.set_duration(F(c["dur"])) for nm in metrics})
+                chords.append(ch)
+            sc = Score(chords)
+            res = ScoreRhythm(metrics)(sc)
+            out = {"durs": [[F(ch.duration), {nm: F(m.duration) for nm, m in ch.score.items()}] for ch in res.chords], "onsets": {}}
+            for nm in metrics:
+                t, ons = F(0), []
+                for ch in res.chords:
+                    tt = t
+                    for x in ch.score[nm].notes:
+                        if x.type not in ("r", "l"):
+                            ons.append(tt)
+                        tt += F(x.duration)
+                    t += F(ch.duration)
+                out["onsets"][nm] = ons
+            return out
+        return mlang.guarded(f)
+
+    def spec(self, case, r):
+        if mlang.is_exc(r):
+            return {"sig": "score-rhythm-raises", "msg": str(r)}
+        tat = F(case["tatum"])
+        total = sum(F(c["dur"]) for c in case["chords"])
+        for (cd, parts), c in zip(r["durs"], case["chords"]):
+            if cd != F(c["dur"]) or any(d != cd for d in parts.values()):
+                return {"sig": "score-rhythm-duration", "msg": f"chord of {c['dur']}: {cd} {parts}"}
+        for nm, g in case["grids"].items():
+            arr = g["array"]
+            want = [i * tat for i in range(int(total / tat)) if arr[i % len(arr)] == 1]
+            if r["onsets"][nm] != want:
+                return {"sig": "score-rhythm-onsets", "msg": f"part {nm}, grid {arr}: notes at {[str(x) for x in r['onsets'][nm]][:12]}, pulses at {[str(x) for x in want][:12]}"}
+        return None
+
+    def nontrivial(self, case, r):
+        return len(case["chords"]) > 1
+
+    def hist_keys(self, case, r):
+        return [f"parts={len(case['grids'])}", f"chords={len(case['chords'])}"]
+
 def streams():
-    return [Apply(), Euclid(), Algebra(), ApplyNoExpand()]
+    return [Apply(), Euclid(), Algebra(), ApplyNoExpand(), ScoreRhythmStream()]
